@@ -1,0 +1,13 @@
+//go:build badger && !verif
+// +build badger,!verif
+
+package badger
+
+import "github.com/dgraph-io/badger/v3"
+
+// verifDB is the handle a BadgerDB keeps on the underlying database.  In a normal build it is
+// badger's own type; built with the tag "verif" it is a wrapper that marks the begin and the end
+// of every read-write transaction (see verif_on.go).
+type verifDB = badger.DB
+
+func wrapVerifDB(bdp *badger.DB) *verifDB { return bdp }
